@@ -185,6 +185,20 @@ class SmallEval:
             args = e["args"]
             if m in ("clone", "as_ref", "to_owned", "deref", "borrow", "copied", "cloned", "as_deref") and not args:
                 return recv
+            if isinstance(recv, tuple) and recv and recv[0] == "list":
+                if m in ("iter", "into_iter", "collect", "to_vec") and len(args) <= 0:
+                    return recv
+                if m == "map" and len(args) == 1 and strip(args[0]).get("k") == "closure":
+                    cl = strip(args[0])
+                    out = []
+                    for x in recv[1]:
+                        env2 = dict(env)
+                        if len(cl["params"]) != 1 or not self.bind(cl["params"][0], x, env2):
+                            raise NoEval("closure parameter")
+                        out.append(self.ev(cl["body"], env2))
+                    return ("list", out)
+                if m == "len" and not args:
+                    return len(recv[1])
             if m == "is_some" and not args:
                 self._opt(recv)
                 return recv is not None
@@ -218,6 +232,12 @@ class SmallEval:
             raise NoEval(f"method .{m}()")
         if k == "macro" and e.get("name", "").endswith("matches") and "args" in e:
             raise NoEval("matches! (unexpanded)")
+        if k == "range":
+            lo = self.ev(e["lo"], env) if e.get("lo") else 0
+            hi = self.ev(e["hi"], env) if e.get("hi") else None
+            if not isinstance(lo, int) or not isinstance(hi, int) or hi - lo > 64:
+                raise NoEval("range bounds")
+            return ("list", list(range(lo, hi + (1 if e.get("closed") else 0))))
         if k == "cast":
             v = self.ev(e["e"], env)
             ty = str(e.get("ty", "")).replace(" ", "")
